@@ -6,9 +6,10 @@ import (
 	"github.com/BlackVectorOps/semantic_firewall/v3/pkg/detection"
 )
 
-// VerifC08_PebbleAlerts: the embedded back end's filters and ordering, with
-// detection.MatchSignature replaced by its contract (a confidence per signature that is a number
-// in [0,1] or NaN, 0 when a required call is missing).
+// VerifC08_PebbleAlerts: the embedded back end's filters and ordering with the real
+// detection.MatchSignature: signatures indexed under the scanned shape's hash, signature and
+// scanner tolerances solver-chosen (including 0, where the confidence degenerates to NaN), entropies
+// from the pool, one signature optionally demanding a call the function does not make.
 func VerifC08_PebbleAlerts() {
 	s := vxNewStore()
 	n := vxParam("sigs", 2)
@@ -16,7 +17,12 @@ func VerifC08_PebbleAlerts() {
 	k := vxPick(2)
 	topo := vxPoolTopo(k)
 	for i := 0; i < n; i++ {
-		sg := detection.Signature{ID: ids[i], Name: "n", TopologyHash: vxTopoHash(k), EntropyScore: topo.EntropyScore, EntropyTolerance: 0.5, NodeCount: i}
+		sg := detection.Signature{ID: ids[i], Name: "n", TopologyHash: vxTopoHash(k), NodeCount: i}
+		sg.EntropyScore = vxSelF64([]float64{topo.EntropyScore, topo.EntropyScore + 0.25, 7.9}, vxIntRange(0, 2))
+		sg.EntropyTolerance = vxSelF64([]float64{0, 0.5}, vxIntRange(0, 1))
+		if vxBool() {
+			sg.IdentifyingFeatures.RequiredCalls = []string{"net.Dial"}
+		}
 		if err := s.AddSignature(&sg); err != nil {
 			vxAssert("add-succeeds", false)
 		}
